@@ -216,9 +216,28 @@ fn backup_and_report(
             }
         }
     }
+    let packs_before: Vec<_> = store.list(FileType::Pack)?;
+    let _ = &mut loaded;
+    // "existed before" = listed by the index AND lying in a pack file the repository holds: entries of
+    // packs that are missing from the pack listing are counted separately and are not part of G
+    let existing: std::collections::BTreeSet<String> = packs_before.iter().map(|i| i.to_hex().to_string()).collect();
+    let mut dangling = 0usize;
+    loaded.clear();
+    for r in repo.stream_files::<IndexFile>()? {
+        let (_id, f) = r?;
+        for p in f.packs {
+            let present = existing.contains(p.id.to_hex().as_str());
+            for b in &p.blobs {
+                if present {
+                    loaded.push((u8::from(b.tpe == rustic_core::repofile::BlobType::Tree), b.id.to_hex().to_string()));
+                } else {
+                    dangling += 1;
+                }
+            }
+        }
+    }
     loaded.sort();
     loaded.dedup();
-    let packs_before: Vec<_> = store.list(FileType::Pack)?;
     let _ = rec.take_log();
     // ---- backup
     let opts = BackupOptions::default().parent_opts(ParentOptions::default().force(force));
@@ -245,7 +264,7 @@ fn backup_and_report(
     let packs_after: Vec<_> = store.list(FileType::Pack)?;
     let sm = snap.summary.clone().unwrap_or_default();
     let mut s = format!(
-        "B{k} force={} tree={} data_added={} data_blobs={} tree_blobs={} data_added_files={} data_added_trees={} files_new={} files_changed={} files_unmodified={} packs_before={} packs_after={}",
+        "B{k} force={} tree={} data_added={} data_blobs={} tree_blobs={} data_added_files={} data_added_trees={} files_new={} files_changed={} files_unmodified={} packs_before={} packs_after={} dangling={dangling}",
         u8::from(force), w.dense(&snap.tree.to_hex()), sm.data_added, sm.data_blobs, sm.tree_blobs, sm.data_added_files,
         sm.data_added_trees, sm.files_new, sm.files_changed, sm.files_unmodified, packs_before.len(), packs_after.len()
     );
@@ -326,6 +345,82 @@ fn backup_and_report(
     Ok(s)
 }
 
+/// The search that runs when the writer-order obligation (`pack_written_before_indexed`) is broken:
+/// a run with more than 50 000 new blobs (fixed-size chunker, 2-byte chunks, a file holding all 65536
+/// two-byte values => packs of 10 000 blobs, the indexer flushes an index file with the 5th pack)
+/// whose `fail_pack`-th pack write fails; then the same source is backed up again through a fresh
+/// handle and observed like every other backup.  Line: `fault <seed> <fail_pack>`.
+fn fault_case(seed: u64, fail_pack: usize) -> String {
+    let src = tempfile::tempdir().unwrap();
+    let mut w = World { root: src.path().to_path_buf(), files: Vec::new(), next: 0, dense: BTreeMap::new(), last_trees: Vec::new() };
+    let mut vals: Vec<u16> = (0..=u16::MAX).collect();
+    let mut r = SplitMix(seed);
+    for i in (1..vals.len()).rev() {
+        vals.swap(i, r.below(i as u64 + 1) as usize);
+    }
+    let data: Vec<u8> = vals.into_iter().flat_map(u16::to_le_bytes).collect();
+    w.files.push(("xall".to_string(), 0));
+    write_file(&w.path(0), &data);
+    let store = mem();
+    let key = MasterKey::new();
+    let cfg = ConfigOptions::default().set_chunker(rustic_core::repofile::Chunker::FixedSize).set_chunk_size(bytesize::ByteSize(2));
+    let init = || -> anyhow::Result<()> {
+        let mut config = rustic_core::repofile::ConfigFile::default();
+        config.version = 2;
+        config.chunker_polynomial = format!("{:x}", POLYS[0]);
+        cfg.apply(&mut config)?;
+        let bes = rustic_core::RepositoryBackends::new(store.clone(), None);
+        let repo = rustic_core::Repository::new(&repo_opts(), &bes)?;
+        let _ = repo.init_with_config(&rustic_core::Credentials::Masterkey(key.clone()), &rustic_core::KeyOptions::default(), config)?;
+        Ok(())
+    };
+    if let Err(e) = init() {
+        return format!("err init {}", e.to_string().replace('\n', " "));
+    }
+    // run 1: the fail_pack-th pack write fails
+    let rec = RecBackend::new(store.clone(), "f");
+    let rec2 = rec.clone();
+    let packs = Arc::new(std::sync::atomic::AtomicUsize::new(0));
+    let packs2 = packs.clone();
+    rec.set_before(Some(Arc::new(move |op: &Op| {
+        if op.kind == OpKind::Write && op.tpe == FileType::Pack {
+            let n = packs2.fetch_add(1, std::sync::atomic::Ordering::SeqCst) + 1;
+            if n == fail_pack {
+                rec2.plan.lock().unwrap().fail_mutating_at = Some(rec2.mutating_count());
+            }
+        }
+    })));
+    let failed = match open_repo(rec.clone(), None, &key, &repo_opts()) {
+        Ok(repo) => backup_dir(repo, &w.root, "src", Some(BackupOptions::default().parent_opts(ParentOptions::default().force(true)))).is_err(),
+        Err(e) => return format!("err open {}", e.to_string().replace('\n', " ")),
+    };
+    rec.set_before(None);
+    // worker threads of the failed run may still be writing: wait until the store is quiet
+    let mut last = usize::MAX;
+    for _ in 0..50 {
+        let n = rec.mutating_count();
+        if n == last {
+            break;
+        }
+        last = n;
+        std::thread::sleep(std::time::Duration::from_millis(300));
+    }
+    let listed = store.list(FileType::Pack).map(|l| l.len()).unwrap_or(0);
+    let snaps = store.list(FileType::Snapshot).map(|l| l.len()).unwrap_or(0);
+    let mut out = format!("ok | FAULT failed={} pack_writes={} packs_listed={listed} snapshots={snaps}", u8::from(failed), packs.load(std::sync::atomic::Ordering::SeqCst));
+    // run 2: healthy backend, index reloaded
+    match backup_and_report(&mut w, &store, &key, true, 0, &[]) {
+        Ok(s) => {
+            out.push_str(" | ");
+            out.push_str(&s);
+        }
+        Err(e) => return format!("err step=0 {}", e.to_string().replace('\n', " ")),
+    }
+    let clean = open_repo(store.clone(), None, &key, &repo_opts()).ok().and_then(|r| check_clean(&r).ok()).unwrap_or(false);
+    out.push_str(&format!(" | END clean={}", u8::from(clean)));
+    out
+}
+
 /// irreducible polynomials of degree 53 (restic's documented example + polynomials drawn by `init`)
 const POLYS: [u64; 6] = [
     0x3DA3358B4DC173, 0x2e275b928699d1, 0x34110dbce30fa7, 0x252ad901f21e1b, 0x2b6a4ad79585f7, 0x33fd4c16e1a84f,
@@ -338,6 +433,11 @@ fn case(line: &str) -> String {
             Ok((repo, _)) => repo.config().chunker_polynomial.clone(),
             Err(e) => format!("err {e}"),
         };
+    }
+    if let Some(rest) = line.trim().strip_prefix("fault") {
+        let mut t = Toks::new(rest);
+        let (seed, fail_pack) = (t.u(), t.u() as usize);
+        return fault_case(seed, fail_pack);
     }
     let mut t = Toks::new(line);
     let (seed, nfiles, maxfile, dp, tp, nsteps) = (t.u(), t.u() as usize, t.u() as usize, t.u() as u32, t.u() as u32, t.u() as usize);
